@@ -255,8 +255,8 @@ TEMPLATES = {
     'edge_inputs': _T(('alt', ['FUNCTION f : INT\n', 'FUNCTION_BLOCK f\n']), 'VAR_INPUT', ('alt', ['', ' RETAIN', ' NON_RETAIN']), '\n  a : BOOL', ('alt', ['', ' R_EDGE', ' F_EDGE']), ';\n', ('opt', '  c : INT;\n'), 'END_VAR\n', ('alt', ['  f := 1;\nEND_FUNCTION\n', 'END_FUNCTION_BLOCK\n'])),
     'sfc_action_association': _T('FUNCTION_BLOCK fb\nVAR\n  done : BOOL;\n  busy : BOOL;\nEND_VAR\nINITIAL_STEP Start:\nEND_STEP\nSTEP Work:\n  act(', ('alt', ['', 'N', 'R', 'S', 'P']), ('opt', ', done'), ('opt', ', busy'),
                                  ');\nEND_STEP\nTRANSITION FROM Start TO Work\n  := TRUE;\nEND_TRANSITION\nACTION act:\n  done := TRUE;\nEND_ACTION\nEND_FUNCTION_BLOCK\n'),
-    'sfc_transition': _T('FUNCTION_BLOCK fb\nVAR\n  done : BOOL;\nEND_VAR\nINITIAL_STEP Start:\nEND_STEP\nSTEP Work:\nEND_STEP\n', ('opt', 'STEP Other:\nEND_STEP\n'), 'TRANSITION ', ('opt', 'tr1 '), ('opt', '(PRIORITY := 2) '), 'FROM ', ('alt', ['Start', '(Start, Work)']),
-                         ' TO ', ('alt', ['Work', '(Work, Start)']), '\n  := ', ('alt', ['TRUE', 'done', 'NOT done']), ';\nEND_TRANSITION\nEND_FUNCTION_BLOCK\n'),
+    'sfc_transition': _T('FUNCTION_BLOCK fb\nVAR\n  done : BOOL;\nEND_VAR\nINITIAL_STEP Start:\nEND_STEP\nSTEP Work:\nEND_STEP\n', ('opt', 'STEP Other:\nEND_STEP\n'), 'TRANSITION ', ('opt', 'tr1 '), ('opt', '(PRIORITY := 2) '), 'FROM ', ('alt', ['Start', '(Start, Work)', '(Start, Work, Start)', '(Start,Work,Start,Work)', '(Start, Work, Start, Work, Start)']),
+                         ' TO ', ('alt', ['Work', '(Work, Start)', '(Work, Start, Work, Start)']), '\n  := ', ('alt', ['TRUE', 'done', 'NOT done']), ';\nEND_TRANSITION\nEND_FUNCTION_BLOCK\n'),
 }
 _OPS = ['+', '-', '*', '/', 'MOD', '**', 'AND', '&', 'OR', 'XOR', '=', '<>', '<', '>', '<=', '>=']
 TEMPLATES['binary_nesting_right'] = _FB([], ['  x := a ', ('alt', _OPS), ' (b ', ('alt', _OPS), ' c);\n'])
